@@ -102,16 +102,27 @@ def main():
 
     # -------------------------- remove_one_edge / remove_one_vertex (unit)
     for job in jobs.get('edge', []):
-        out = {'id': job['id']}
+        out = {'id': job['id'], 'steps': []}
         try:
-            poly = np.array(encode_poly(job['poly']), np.int32)
-            with contextlib.redirect_stdout(buf):
-                if job['op'] == 'edge':
-                    ok, newp = mcmod.remove_one_edge_from_polyhedron(poly, job['a'], job['b'])
+            import random as _random
+            rr = _random.Random(job['seed'])
+            cur = [list(f) for f in job['poly']]
+            for step in range(job['steps']):
+                if step == 0:
+                    a, b = job['a'], job['b']
                 else:
-                    ok, newp = mcmod.remove_one_vertex_from_polyhedron(poly, job['a'])
-            out['ok'] = bool(ok)
-            out['poly'] = decode_poly(newp)[0]
+                    f = rr.choice(cur)
+                    j = rr.randrange(len(f))
+                    a, b = f[j - 1], f[j]
+                    if rr.random() < 0.5:
+                        a, b = b, a
+                poly = np.array(encode_poly(cur), np.int32)
+                with contextlib.redirect_stdout(buf):
+                    ok, newp = mcmod.remove_one_edge_from_polyhedron(poly, a, b)
+                newf = decode_poly(newp)[0]
+                out['steps'].append({'a': int(a), 'b': int(b), 'ok': bool(ok), 'before': cur, 'after': newf})
+                if ok:
+                    cur = newf
         except Exception as e:  # noqa
             out['error'] = type(e).__name__ + ': ' + str(e)[:200]
         res['edge'].append(out)
